@@ -125,6 +125,10 @@ func runC16(in *Sx) *Sx {
 			panic(err)
 		}
 	}
+	if fsys := in.Field("fsys"); fsys != nil && fsys.Args()[0].Atom == "1" {
+		// the same directory through io/fs: names with empty, "." or ".." elements are refused, not cleaned
+		opt.FileSystem = http.FS(os.DirFS(filepath.Join(c16root, "pub")))
+	}
 	opt.Prefix = in.Field("prefix").Args()[0].Bytes()
 	opt.Index = in.Field("index").Args()[0].Bytes()
 	opt.SetETag = in.Field("etag").Args()[0].Atom == "1"
@@ -247,7 +251,7 @@ func genC16(rng *rand.Rand, n int, tier string, emit func(*Sx)) {
 			index = []string{"home.htm", "b.txt", "missing.html"}[rng.Intn(3)]
 		}
 		emit(T("in", T("fs", c16fsSx()), T("dir", X("pub")), T("prefix", X(prefix)), T("index", X(index)), T("etag", B(rng.Intn(3) == 0)),
-			T("expires", B(rng.Intn(4) == 0)), T("cache", B(rng.Intn(4) == 0)), T("method", X(method)), T("path", X(path)), T("defdir", B(rng.Intn(6) == 0))))
+			T("expires", B(rng.Intn(4) == 0)), T("cache", B(rng.Intn(4) == 0)), T("method", X(method)), T("path", X(path)), T("defdir", B(rng.Intn(6) == 0)), T("fsys", B(rng.Intn(5) == 0))))
 	}
 }
 
